@@ -247,10 +247,21 @@ theorem ops_stitchDown {s : Store} (wf : ArchWF s) (b : Nat) :
         generalize (stitchDown b (bandTake s b last).snd).opsIn w3 = d at *
         have h5 : 1 + (c + (1 + d)) ≤ b * K + K := by omega
         exact h5
-    · have hrec := ih last evs w1 q1
-      have hex' : isFileP s (.bandHead b) = false := by simpa using hex
-      simp only [hex', Bool.false_eq_true, if_false]
-      omega
+    · have hex' : isFileP s (.bandHead b) = false := by simpa using hex
+      obtain ⟨w2, h2, q2⟩ := run_unwrapOr_isFile q1 (.hunk b 0) false
+      simp only [hex', Bool.false_eq_true, if_false, Prog.opsIn_bind, ops_unwrapOr_isFile, h2]
+      by_cases hk : isFileP s (.hunk b 0) = true
+      · have hrec := ih last _ _ (q2.emit (.error (.bandHeadMissing b)))
+        simp only [hk, if_true, logError, Prog.emit_bind, Prog.ret_bind, Prog.opsIn]
+        generalize (stitchDown b last).opsIn _ = d at *
+        have h5 : 1 + (1 + d) ≤ b * K + K := by omega
+        exact h5
+      · have hrec := ih last evs w2 q2
+        have hk' : isFileP s (.hunk b 0) = false := by simpa using hk
+        simp only [hk', Bool.false_eq_true, if_false]
+        generalize (stitchDown b last).opsIn _ = d at *
+        have h5 : 1 + (1 + d) ≤ b * K + K := by omega
+        exact h5
 
 theorem ops_stitchAll {s : Store} (wf : ArchWF s) (n : Nat)
     {evs : List Event} {w : World} (h : Quiet s evs w) :
